@@ -60,6 +60,7 @@ type Run struct {
 	exhaustive  bool
 	caps        []string
 	parts       []map[string]any
+	expiredSeen atomic.Bool
 	deadline    time.Time
 }
 
@@ -87,7 +88,19 @@ func (r *Run) Thorough() bool { return r.Tier == "thorough" }
 // SetDeadline sets an internal soft deadline; enumerators consult Expired().
 func (r *Run) SetDeadline(d time.Duration) { r.deadline = time.Now().Add(d) }
 
-func (r *Run) Expired() bool { return !r.deadline.IsZero() && time.Now().After(r.deadline) }
+// Expired tells an enumerator that the soft deadline has passed. Whoever is told so cuts its
+// enumeration short, therefore the first true answer also records a cap: a run in which any part
+// saw the deadline is never reported as exhaustive, whether or not that part records a cap of its
+// own with the counts it completed.
+func (r *Run) Expired() bool {
+	if r.deadline.IsZero() || !time.Now().After(r.deadline) {
+		return false
+	}
+	if r.expiredSeen.CompareAndSwap(false, true) {
+		r.Cap("deadline reached: at least one enumeration was told to stop before it had finished (parts record their own counts where they can)")
+	}
+	return true
+}
 
 // Cap records that a cap was hit: the run is no longer exhaustive.
 func (r *Run) Cap(what string) {
